@@ -213,7 +213,7 @@ func runCheck(o *checkOpts) int {
 			if o.prop != "" && !q.Ob.Cover && !hasTag(effectiveTags(q.Ob, key), o.prop) {
 				continue
 			}
-			if o.prop != "" && q.Ob.Cover && homeProp(key) != o.prop {
+			if o.prop != "" && q.Ob.Cover && !hasHome(key, o.prop) {
 				continue
 			}
 			jobs = append(jobs, job{q, fr.Short})
@@ -473,6 +473,7 @@ func runCheck(o *checkOpts) int {
 			"solver_seconds":         round3(solverSecs),
 			"vacuity_covers":         nCover,
 			"vacuity_covers_reachable": nCoverOK,
+			"vacuity_note":           "a cover asserts false at a function entry / path end under the contract; it FAILS the check when a solver proves it (contradictory precondition, unreachable end). 'reachable' counts only covers for which a solver produced a model; with quantified background axioms the usual answer is 'unknown', which is not a proof of reachability and not an alarm",
 			"samples":                samples,
 			"failed":                 failedNames(failed),
 			"bounded":                boundedInfo,
